@@ -147,15 +147,22 @@ def check_layout(lay, variation, param, isar=False):
         shutil.rmtree(root, ignore_errors=True)
 
 
-def check_twins(lay_a, lay_b, order):
+def check_twins(lay_a, lay_b, order, isar=False):
     """Two independent schemas in two directories, each with its own 'types.prophy' (same spelling, different
-    content): compiling both main files in one run must give what compiling each alone gives."""
+    content): compiling both main files in one run must give what compiling each alone gives.
+    isar: two independent single XML files whose definitions carry the same names with different contents."""
     root = pyh.fresh_dir('c20t')
     try:
         mains = []
+        pre = ['--isar'] if isar else []
         for tag, lay in (('a', lay_a), ('b', lay_b)):
             d = os.path.join(root, tag)
             os.makedirs(d)
+            if isar:
+                mains.append(os.path.join(d, 'm%s.xml' % tag))
+                with open(mains[-1], 'w') as f:
+                    f.write(ir.to_isar(lay.schema.decls))
+                continue
             lay.stems = ['types', 'm' + tag]
             lay.arrangement = 'flat'
             for i in range(lay.nfiles):
@@ -167,7 +174,7 @@ def check_twins(lay_a, lay_b, order):
                              ('together', [mains[i] for i in order])):
             o = os.path.join(root, 'out_' + label)
             os.makedirs(o)
-            rc, err = run_sub(out_args(o) + files, root, 0)
+            rc, err = run_sub(pre + out_args(o) + files, root, 0)
             if rc != 0:
                 if label != 'together':
                     return 'skip'
@@ -191,12 +198,34 @@ def twin_cases(draw, opts):
     lays = []
     for _ in range(2):
         for _try in range(4):
-            lay = draw(multifile.layouts(opts, min_files=2, max_files=2))
+            lay = draw(multifile.layouts(opts, min_files=2, max_files=2, transitive_focus=0))
             if lay.nfiles == 2 and lay.includes[1] == [0]:
                 break
         lays.append(lay)
     order = draw(st.permutations([0, 1]))
     return lays[0], lays[1], list(order)
+
+
+@st.composite
+def isar_twin_cases(draw):
+    o = gen.GenOpts(allow_greedy=False, big_sizes=False, min_decls=3, max_decls=8, const_exprs=True, const_ref_bias=2,
+                    cpp_full_ok=True, enum_aliases=False)
+    lays = [draw(multifile.layouts(o, min_files=1, max_files=1, transitive_focus=0)) for _ in range(2)]
+    return lays[0], lays[1], list(draw(st.permutations([0, 1])))
+
+
+def isar_twin_body(case, stats):
+    lay_a, lay_b, order = case
+    res = check_twins(lay_a, lay_b, order, isar=True)
+    if res == 'skip':
+        stats.notes['baseline_refused'] += 1
+        return
+    stats.case((ir.to_isar(lay_a.schema.decls), ir.to_isar(lay_b.schema.decls), tuple(order)), True,
+               ('twin_inputs', 'isar', 'files=2'),
+               sample=lambda: {'variation': 'twin_inputs', 'isar': True, 'order': order,
+                               'a': ir.to_isar(lay_a.schema.decls), 'b': ir.to_isar(lay_b.schema.decls)})
+    if res:
+        raise Violation(res[0], {'details': res[1]})
 
 
 def twin_body(case, stats):
@@ -265,6 +294,8 @@ def worker(widx, seed, tier, stats):
     runner.run_given(cases(gen_opts()), body, seed, n, stats, shrink=(tier == 'thorough'))
     if not stats.violations:
         runner.run_given(twin_cases(gen_opts()), twin_body, seed + 3, max(n // 4, 6), stats, shrink=(tier == 'thorough'))
+    if not stats.violations:
+        runner.run_given(isar_twin_cases(), isar_twin_body, seed + 5, max(n // 6, 5), stats, shrink=(tier == 'thorough'))
 
 
 def run(tier, seed):
